@@ -5,7 +5,8 @@
 -/
 import InjModel.Tie.X86
 import InjModel.Tie.Alloc
-open Inj Inj.Rt Inj.Tie Inj.Alloc
+import InjModel.Lemmas.Machine
+open Inj Inj.Rt Inj.Tie Inj.Alloc Inj.Machine
 
 namespace Inj.Tie
 
@@ -84,6 +85,105 @@ theorem T_x86_install_exec (mode : Mode) (func fake jit page : Nat) (code br sav
   rw [run_bind_ok _ _ _ _ _ (T_x86_inject mode code jit _ (by omega))]
   rw [run_bind_ok _ _ _ _ _ (T_x86_patch_and_guard mode func jit 12 br saved _ tail (by omega) (by omega) hbr (by omega)), run_pure]
   simp
+/-- reading of one logged OS call of the translated code as a `Machine.Event` (`jit` = what the kernel
+    answered to the hinted mmap); calls the machine model does not log (`sysconf`, `read_bytes`, the
+    guard constructor) give `none` -/
+def toEvent (jit : Nat) : String × List Val → Option Event
+  | ("mmap", [_, Val.n len, _, _, _, _]) => some (Event.mmap jit len.toNat)
+  | ("munmap", [Val.n a, Val.n l]) => some (Event.munmap a.toNat l.toNat)
+  | ("mprotect", [Val.n a, Val.n l, _]) => some (Event.mprotect a.toNat l.toNat)
+  | ("copy_nonoverlapping", [Val.bs b, Val.n d, _]) => some (Event.write d.toNat b)
+  | ("__clear_cache", [Val.n lo, Val.n hi]) => some (Event.flush lo.toNat hi.toNat)
+  | _ => none
+
+/-- **Refinement of the machine model by the translated code** (x86-64, executable payload, first
+    hint honoured): whenever `Machine.installX86` succeeds, the translated
+    `replace_function_with_other_function`, run on the same kernel answers, succeeds too and the OS
+    calls it logs — read as machine events — are exactly the events the model appends, in order. -/
+theorem T_x86_install_refines (mode : Mode) (s s' : MState) (func fake jit : Nat) (saved : List Nat)
+    (log : List (String × List Val)) (tail : List Val)
+    (hf : func + 134217728 + 4096 < 18446744073709551616) (hk : fake < 18446744073709551616)
+    (hj : jit < 18446744073709551615) (hnear : Alloc.absDiff jit func < 134217728)
+    (hi : installX86 mode s func (Payload.exec fake) jit = some s') :
+    (run (GenX86.replace_function_with_other_function mode 2 func fake)
+        { answers := Val.n (4096 : Nat) :: Val.n jit :: Val.bs saved :: Val.n 4096 :: Val.n 0 :: tail, log := log }).1 = Res.ok () ∧
+    s'.log = Event.ret ::
+      ((((run (GenX86.replace_function_with_other_function mode 2 func fake)
+        { answers := Val.n (4096 : Nat) :: Val.n jit :: Val.bs saved :: Val.n 4096 :: Val.n 0 :: tail, log := log }).2.log.drop log.length).filterMap (toEvent jit)).reverse ++ s.log) := by
+  obtain ⟨code, br, hc, hb, hlog⟩ := installX86_log mode s s' func (Payload.exec fake) jit hi
+  have hcode : X86.genBranch mode jit fake = Res.ok code := by
+    unfold payloadCode at hc
+    cases hg : X86.genBranch mode jit fake with
+    | ok c => simp [hg] at hc; rw [hc]
+    | panic w => simp [hg] at hc
+  rw [T_x86_install_exec mode func fake jit 4096 code br saved log tail hf hk hj rfl hnear hcode hb]
+  refine ⟨rfl, ?_⟩
+  rw [hlog]
+  simp [toEvent, Payload.jitSize, X86.jitSizeExec, Generated.Consts.x86JitSizeExec]
+  constructor <;> omega
+theorem T_x86_clear_cache (mode : Mode) (a b : Nat) (os : Os) :
+    run (GenX86.clear_cache mode a b) os =
+      (Res.ok (), { os with log := os.log ++ [("__clear_cache", [Val.n a, Val.n b])] }) := by
+  rw [GenX86.clear_cache, run_bind_ok _ _ _ _ _ (run_extU _ _ _), run_pure]
+  rfl
+
+theorem run_extU_then_unit (name : String) (args : List Val) (os : Os) :
+    run (extU name args >>= fun _ => (pure () : M Unit)) os =
+      (Res.ok (), { os with log := os.log ++ [(name, args)] }) := by
+  rw [run_bind_ok _ _ _ _ _ (run_extU _ _ _), run_pure]
+
+/-- `PatchGuard::drop` as translated: `patch_function(func, saved[..patch_size])`, then `munmap` of the
+    trampoline when there is one, then one more flush of the entry range — the steps of
+    `Machine.restoreGuard`, in its order. -/
+theorem T_x86_drop (mode : Mode) (func : Nat) (saved : List Nat) (psz jit jsz : Nat)
+    (log : List (String × List Val)) (tail : List Val)
+    (h : func + psz + 4096 < 18446744073709551616) (hl : 1 ≤ psz) (hs : psz ≤ saved.length) :
+    run (GenX86.drop mode func saved psz jit jsz) { answers := Val.n 4096 :: Val.n 0 :: tail, log := log } =
+      (Res.ok (), { answers := tail, log := log ++
+        [("sysconf", [Val.n 30]),
+         ("mprotect", [Val.n ((Machine.protectSpan func psz).1 : Nat), Val.n ((Machine.protectSpan func psz).2 : Nat), Val.n 7]),
+         ("copy_nonoverlapping", [Val.bs (saved.take psz), Val.n func, Val.n psz]),
+         ("__clear_cache", [Val.n func, Val.n ((func + psz : Nat) : Int)])] ++
+        (if jit ≠ 0 then [("munmap", [Val.n jit, Val.n jsz])] else []) ++
+        [("__clear_cache", [Val.n func, Val.n ((func + psz : Nat) : Int)])] }) := by
+  have hsl : Rt.slice saved 0 psz = Res.ok (saved.take psz) := by
+    unfold Rt.slice; simp [hs]
+  have hlen : (saved.take psz).length = psz := by simp [hs]
+  have hpf := T_x86_patch_function mode func (saved.take psz) log tail (by omega) (by omega)
+  rw [hlen] at hpf
+  have hu : uadd 64 mode func psz = Res.ok (func + psz) := uadd64_ok _ _ _ (by omega)
+  rw [GenX86.drop, run_bind_lift_ok _ _ _ _ hsl, run_bind_ok _ _ _ _ _ hpf]
+  by_cases c : jit = 0
+  · subst c
+    simp only [beq_self_eq_true, Bool.not_true, Bool.false_eq_true, if_false, ne_eq, not_true_eq_false]
+    rw [run_bind_lift_ok _ _ _ _ hu, run_bind_ok _ _ _ _ _ (T_x86_clear_cache mode func (func + psz) _), run_pure]
+    simp
+  · have cb : (!(jit == 0)) = true := by simp [c]
+    simp only [cb, if_true, ne_eq, c, not_false_eq_true]
+    rw [run_bind_ok _ _ _ _ _ (run_extU_then_unit _ _ _)]
+    rw [run_bind_lift_ok _ _ _ _ hu, run_bind_ok _ _ _ _ _ (T_x86_clear_cache mode func (func + psz) _), run_pure]
+    simp
+
+/-- **Refinement for the restore path**: the OS calls the translated `PatchGuard::drop` logs for a
+    guard `g`, read as machine events, are exactly what `Machine.restoreGuard` appends, in order. -/
+theorem T_x86_drop_refines (mode : Mode) (s : MState) (g : Guard)
+    (log : List (String × List Val)) (tail : List Val)
+    (h : g.addr + g.patchLen + 4096 < 18446744073709551616) (hl : 1 ≤ g.patchLen) (hs : g.patchLen ≤ g.saved.length) :
+    (run (GenX86.drop mode g.addr g.saved g.patchLen g.jit g.jitLen)
+        { answers := Val.n 4096 :: Val.n 0 :: tail, log := log }).1 = Res.ok () ∧
+    (restoreGuard s g).log =
+      (((run (GenX86.drop mode g.addr g.saved g.patchLen g.jit g.jitLen)
+        { answers := Val.n 4096 :: Val.n 0 :: tail, log := log }).2.log.drop log.length).filterMap (toEvent 0)).reverse ++ s.log := by
+  rw [T_x86_drop mode g.addr g.saved g.patchLen g.jit g.jitLen log tail h hl hs]
+  refine ⟨rfl, ?_⟩
+  rw [restoreGuard_log]
+  have hlen : (g.saved.take g.patchLen).length = g.patchLen := by simp [hs]
+  by_cases c : g.jit = 0
+  · simp [c, toEvent, hlen]; omega
+  · simp [c, toEvent, hlen]; omega
 end Inj.Tie
 #print axioms Inj.Tie.T_x86_patch_and_guard
 #print axioms Inj.Tie.T_x86_install_exec
+#print axioms Inj.Tie.T_x86_install_refines
+#print axioms Inj.Tie.T_x86_drop
+#print axioms Inj.Tie.T_x86_drop_refines
